@@ -4,19 +4,23 @@
       sql/internal/sqlx/plan.go     : DetachCycles, detachReferences, sortMap,
                                       dependencies, table, isDropped, SortChanges
       sql/internal/sqlx/sqlx_oss.go : dependsOn (table / foreign-key arms)
-      sql/mysql/migrate_oss.go      : state.modifyTable (which ModifyTable sources a plan carries)
-      sql/postgres/migrate_oss.go   : state.modifyTable + alterTable (idem)
+      sql/mysql/migrate_oss.go      : state.modifyTable (which ModifyTable sources a plan carries),
+                                      state.topLevel (schema-level changes first, the rest to the sort)
+      sql/postgres/migrate_oss.go   : state.modifyTable + alterTable, state.topLevel (idem)
 
     Restrictions (said once, here):
     * changes are AddTable / DropTable / ModifyTable [AddFK | DropFK | ModifyFK | Other];
       schemas, views, functions, objects, triggers, enum and row types are outside
-      (all tables live in one schema, [T.Deps] is empty), so [dependOnOf], [depOfAdd],
+      ([T.Deps] is empty; tables may live in several schemas and two schemas may hold tables
+      of the same name: a table carries [t_name] and [t_schema], and the model reads the one or
+      the pair exactly where the Go code does -- [dependencies], [isDropped], [table], the index
+      map of [sortMap] go by T.Name alone, [dependsOn] by SameTable), so [dependOnOf], [depOfAdd],
       [depOfDrop], [typeDependsOnT] are constantly false and are omitted;
       the ModifyTable/ModifyTable arm of dependsOn needs an AddColumn whose *child* column
       pointer occurs in the other table's new FK and is constantly false here.
     * every foreign key is complete ([checkFK] never errors).
-    * a *schema.Table pointer is a [table] = name + id; Go's [==] on pointers is [ptr_eqb]
-      (ids), [SameTable]/[.Name ==] is [same_table] (names).  The copy [t := *change.T] made
+    * a *schema.Table pointer is a [table] = name + schema + id; Go's [==] on pointers is [ptr_eqb]
+      (ids), [SameTable] is [same_table] (name and schema), [.Name ==] is [t_name _ =? t_name _].  The copy [t := *change.T] made
       by detachReferences keeps the id: no modelled comparison looks at that pointer afterwards.
     * a schema.Change value is compared by pointer in SortChanges ([c1 != c2], the
       [hasE]/[edges]/[added] maps): the model uses the position in the slice, i.e. it
@@ -32,7 +36,9 @@ From Coq Require Import List Bool Arith Lia.
 Import ListNotations.
 
 (** * Data *)
-Record table := mkT { t_name : nat; t_id : nat }.
+(* t_name = T.Name, t_schema = T.Schema.Name (0 = a nil *schema.Schema; SameSchema(nil, nil) = true,
+   SameSchema(nil, s) = false: the harness numbers real schemas from 1), t_id = the pointer *)
+Record table := mkT { t_name : nat; t_schema : nat; t_id : nat }.
 Record fkey := mkFK { f_sym : nat; f_tab : table; f_ref : table }.
 
 Inductive tchange :=
@@ -47,7 +53,15 @@ Inductive change :=
 | ModifyTable (t : table) (cs : list tchange).
 
 Definition ptr_eqb (a b : table) : bool := t_id a =? t_id b.
-Definition same_table (a b : table) : bool := t_name a =? t_name b.
+(* plan.go: SameTable = t1.Name == t2.Name && SameSchema(t1.Schema, t2.Schema); the sites of dependsOn
+   that spell it out (c1.T.Name == c2.T.Name && SameSchema(...)) are the same test *)
+Definition same_table (a b : table) : bool := (t_name a =? t_name b) && (t_schema a =? t_schema b).
+
+(* The identity of a database table is the pair (schema, name).  The reference catalogue
+   (specification side) keys tables by an injective code of that pair (SortReplay.qn_inj), so that
+   it stays a list of numbers; no modelled Go function computes [qn]. *)
+Definition qcode (s n : nat) : nat := (s + n) * (s + n) + s.
+Definition qn (t : table) : nat := qcode (t_schema t) (t_name t).
 
 (* plan.go: table *)
 Definition table_of (c : change) : table :=
@@ -320,6 +334,29 @@ Definition plan (changes : list change) : pres :=
   | DCOk l => match SortChanges l with None => POut | Some r => POk r end
   end.
 
+(** * topLevel (mysql/migrate_oss.go, postgres/migrate_oss.go: state.topLevel, state.plan) *)
+(* A change list may hold schema-level changes next to the table changes.  state.plan first runs
+   topLevel: one pass over the list that appends the statement of every AddSchema / DropSchema /
+   ModifySchema (one attribute change) to the plan at once and collects the other changes, in order,
+   in a NEW slice [planned]; only [planned] goes to DetachCycles and SortChanges.  The argument is
+   only read: planning the same list again gives the same plan (a Gallina function cannot say more;
+   that the Go code does not write to its argument is checked on the Go side, oracle classes
+   replan-differs / input-mutated). *)
+Inductive schange := AddSchema (s : nat) | DropSchema (s : nat) | ModifySchema (s : nat).
+Inductive gchange := GSchema (c : schange) | GTable (c : change).
+
+Fixpoint topLevel (l : list gchange) : list schange * list change :=
+  match l with
+  | [] => ([], [])
+  | GSchema c :: l' => let (top, planned) := topLevel l' in (c :: top, planned)
+  | GTable c :: l' => let (top, planned) := topLevel l' in (top, c :: planned)
+  end.
+
+(* state.plan: the statements of the schema-level changes first, then the sorted table changes *)
+Definition plan_all (l : list gchange) : option (list schange * list change) :=
+  let (top, planned) := topLevel l in
+  match plan planned with POut => None | POk r => Some (top, r) end.
+
 (** * Which ModifyTable sources the dialect planners put into Plan.Changes *)
 Definition is_modfk (c : tchange) : bool := match c with ModifyFK _ _ => true | _ => false end.
 Definition is_dropfk (c : tchange) : bool := match c with DropFK _ => true | _ => false end.
@@ -362,17 +399,17 @@ Definition fk_live (child sym : nat) (c : cat) : bool :=
 Definition replay_tc (t : nat) (c : cat) (tc : tchange) : option cat :=
   match tc with
   | AddFK f =>
-      if mem (t_name (f_ref f)) (c_tabs c)
-      then Some (mkCat (c_tabs c) (c_fks c ++ [(t, f_sym f, t_name (f_ref f))]))
+      if mem (qn (f_ref f)) (c_tabs c)
+      then Some (mkCat (c_tabs c) (c_fks c ++ [(t, f_sym f, qn (f_ref f))]))
       else None
   | DropFK f =>
       if fk_live t (f_sym f) c                                          (* DROP of a key that is not live *)
       then Some (mkCat (c_tabs c) (filter (fk_key_neqb t (f_sym f)) (c_fks c)))
       else None
   | ModifyFK from to =>
-      if mem (t_name (f_ref to)) (c_tabs c)
+      if mem (qn (f_ref to)) (c_tabs c)
       then if fk_live t (f_sym from) c
-           then Some (mkCat (c_tabs c) (filter (fk_key_neqb t (f_sym from)) (c_fks c) ++ [(t, f_sym to, t_name (f_ref to))]))
+           then Some (mkCat (c_tabs c) (filter (fk_key_neqb t (f_sym from)) (c_fks c) ++ [(t, f_sym to, qn (f_ref to))]))
            else None
       else None
   | Other _ => Some c
@@ -387,19 +424,19 @@ Fixpoint replay_tcs (t : nat) (c : cat) (tcs : list tchange) : option cat :=
 Definition replay1 (c : cat) (ch : change) : option cat :=
   match ch with
   | AddTable t fks =>
-      let n := t_name t in
+      let n := qn t in
       if mem n (c_tabs c) then None                                     (* double create *)
-      else if forallb (fun f => mem (t_name (f_ref f)) (n :: c_tabs c)) fks
-           then Some (mkCat (n :: c_tabs c) (c_fks c ++ map (fun f => (n, f_sym f, t_name (f_ref f))) fks))
+      else if forallb (fun f => mem (qn (f_ref f)) (n :: c_tabs c)) fks
+           then Some (mkCat (n :: c_tabs c) (c_fks c ++ map (fun f => (n, f_sym f, qn (f_ref f))) fks))
            else None                                                     (* FK to a missing table *)
   | DropTable t _ =>
-      let n := t_name t in
+      let n := qn t in
       if negb (mem n (c_tabs c)) then None                              (* double drop / unknown *)
       else if existsb (fun e => (snd e =? n) && negb (fst (fst e) =? n)) (c_fks c)
            then None                                                     (* live incoming FK *)
            else Some (mkCat (remove_nat n (c_tabs c)) (filter (fun e => negb (fst (fst e) =? n)) (c_fks c)))
   | ModifyTable t tcs =>
-      if mem (t_name t) (c_tabs c) then replay_tcs (t_name t) c tcs else None
+      if mem (qn t) (c_tabs c) then replay_tcs (qn t) c tcs else None
   end.
 
 Fixpoint replay (l : list change) (c : cat) : option cat :=
